@@ -369,6 +369,9 @@ func (v *authorizer) loadPoliciesV2(pbPolicies *pb.AuthorizerPolicies) error {
 	v.policies = make([]Policy, len(pbPolicies.Policies))
 	for i, pbPolicy := range pbPolicies.Policies {
 		policy := Policy{}
+		if pbPolicy.Kind == nil {
+			return errors.New("verifier: load policies v1: proto policy has no kind")
+		}
 		switch *pbPolicy.Kind {
 		case pb.Policy_Allow:
 			policy.Kind = PolicyKindAllow
